@@ -330,10 +330,19 @@ def r4_declarations(chk: Check):
             chk.violation(f"core.types:{c.qual}.ignore", f"{c.qual} overrides `ignore`: only Path parameters are ignored by type", chk.loc(c.module, c.node))
     # Argument.ignored := type.ignore if ignored is None else ignored
     init = tree.func("core.arguments", "Argument.__init__")
-    st = [s for s in body_walk(init.node) if isinstance(s, ast.Assign) and src(s.targets[0]) == "self.ignored"]
-    ok = len(st) == 1 and src(st[0].value) in ("self.type.ignore if ignored is None else ignored", "ignored if ignored is not None else self.type.ignore",
-                                               "type.ignore if ignored is None else ignored", "ignored if ignored is not None else type.ignore")
-    chk.require(ok, "core.arguments:Argument.__init__:ignored", f"Argument.ignored is `{src(st[0].value) if st else '?'}`, expected the declared flag or else the type's default", chk.loc(init.module, init.node))
+    from ..dataflow import path_traces
+
+    gi = CFG(init.node)
+    rdi = ReachingDefs(gi)
+    stores = [n for n in gi.live if n.kind == "stmt" and isinstance(n.ast, ast.Assign) and any(src(t) == "self.ignored" for t in n.ast.targets)]
+    got = set()
+    for n in stores:
+        gs = sorted((rdi.canon(t.ast, t), pol) for t, pol in gi.guards(n) if t.kind == "test" and "ignored" in src(t.ast))
+        got.add((tuple(gs), rdi.canon(n.ast.value, n)))
+    want = {((("ignored is None", True),), "self.type.ignore"), ((("ignored is None", False),), "ignored")}
+    want2 = {((("ignored is None", True),), "type.ignore"), ((("ignored is None", False),), "ignored")}
+    ok = bool(stores) and got in (want, want2) and gi.on_every_path(stores)
+    chk.require(ok, "core.arguments:Argument.__init__:ignored", f"Argument.ignored is set by {sorted(got)}, expected the declared flag or else the type's default", chk.loc(init.module, init.node))
     # generator from field(default_factory)
     gen = [s for s in body_walk(init.node) if isinstance(s, ast.Assign) and src(s.targets[0]) == "self.generator"]
     chk.require(any("default_factory" in src(s.value) for s in gen) and any(src(s.value) == "generator" for s in gen),
